@@ -6,6 +6,7 @@ Type enum, field interface, atomic types
 package anytype
 
 import (
+	"fmt"
 	"math"
 	"strconv"
 	"strings"
@@ -142,6 +143,46 @@ func native(value any) any {
 }
 
 /*
+Quotes a string as a JSON string literal.
+Quotation marks, backslashes and control characters are escaped, all other characters are written as they are.
+Parameters:
+  - str - string to quote.
+
+Returns:
+  - quoted string.
+*/
+func quote(str string) string {
+	var result strings.Builder
+	result.WriteRune('"')
+	for _, char := range str {
+		switch char {
+		case '"':
+			result.WriteString(`\"`)
+		case '\\':
+			result.WriteString(`\\`)
+		case '\b':
+			result.WriteString(`\b`)
+		case '\f':
+			result.WriteString(`\f`)
+		case '\n':
+			result.WriteString(`\n`)
+		case '\r':
+			result.WriteString(`\r`)
+		case '\t':
+			result.WriteString(`\t`)
+		default:
+			if char < 0x20 {
+				result.WriteString(fmt.Sprintf(`\u%04x`, char))
+			} else {
+				result.WriteRune(char)
+			}
+		}
+	}
+	result.WriteRune('"')
+	return result.String()
+}
+
+/*
 Structure encapsulating a string value.
 Implements:
   - field.
@@ -191,7 +232,7 @@ Returns:
 */
 func (ego *atString) serialize() string {
 	val := ego.getVal().(string)
-	return strconv.Quote(val)
+	return quote(val)
 }
 
 /*
